@@ -8,6 +8,14 @@
      vK = e                            assignment
      println((e).inspect)              print
      class ZK < Nope; end              a definition that fails EARLY (type-definition phase)
+     typedef TK = X                    named type (alias) of Int | String | another alias | a class;
+                                       hoisted: visible to the whole input, forward references
+                                       between the typedefs of one input are resolved, cycles and
+                                       undefined names are errors, an alias cannot be redeclared
+     class CK; end                     declaration (or reopening) of an empty class; `CK()` is an
+                                       instance, the only value of type CK
+   The declared type of a local is a type expression X (Int | String | alias | class); aliases are
+   transparent (a local declared with an alias of Int is an Int local).
    Ill-typed inputs (undefined name, type mismatch, redeclaration, invalid override) fail LATE:
    after the methods of the input were hoisted into the environment, after some bodies were checked.
 
@@ -25,9 +33,17 @@
 From Coq Require Import ZArith NArith List Bool.
 Import ListNotations.
 
-Inductive ty := TInt | TStr.
+Inductive ty := TInt | TStr | TObj (c : N).
 Definition ty_eqb (a b : ty) : bool :=
-  match a, b with TInt, TInt => true | TStr, TStr => true | _, _ => false end.
+  match a, b with
+  | TInt, TInt => true
+  | TStr, TStr => true
+  | TObj c, TObj d => N.eqb c d
+  | _, _ => false
+  end.
+
+(* type expressions as written in the source *)
+Inductive texp := XInt | XStr | XAlias (a : N) | XClass (c : N).
 
 Inductive expr :=
 | ELit (z : Z)
@@ -38,19 +54,22 @@ Inductive expr :=
 | ECall (m : N) (a : expr)
 | EAdd (a b : expr)
 | EMul (a b : expr)
-| EDiv (a b : expr).
+| EDiv (a b : expr)
+| ENew (c : N).
 
 Inductive stmt :=
 | SDef (m : N) (rt : ty) (body : expr)
 | SConst (k : N) (e : expr)
-| SDecl (v : N) (t : ty) (e : expr)
+| SDecl (v : N) (t : texp) (e : expr)
 | SAssign (v : N) (e : expr)
 | SPrint (e : expr)
-| SEarly.
+| SEarly
+| STypedef (a : N) (x : texp)
+| SClass (c : N).
 
 Definition input := list stmt.
 
-Inductive val := VInt (z : Z) | VStr (s : N) | VNil.
+Inductive val := VInt (z : Z) | VStr (s : N) | VNil | VObj (c : N).
 
 (* ---------------------------------------------------------------- association lists *)
 
@@ -78,9 +97,27 @@ Fixpoint memN (k : N) (l : list N) : bool :=
 
 (* ---------------------------------------------------------------- the checker *)
 
+(* the type a type expression denotes: aliases are chased through the table of typedefs (the
+   unresolved right-hand sides, as written); running out of fuel = a circular definition *)
+Fixpoint resolve (fuel : nat) (tds : list (N * texp)) (cs : list N) (x : texp) {struct fuel} : option ty :=
+  match x with
+  | XInt => Some TInt
+  | XStr => Some TStr
+  | XClass c => if memN c cs then Some (TObj c) else None
+  | XAlias a =>
+      match fuel with
+      | O => None
+      | S f => match lookup tds a with Some y => resolve f tds cs y | None => None end
+      end
+  end.
+
+Definition resolve_in (tds : list (N * texp)) (cs : list N) (x : texp) : option ty :=
+  resolve (S (length tds)) tds cs x.
+
 (* static type of an expression; [locs] = None inside method bodies and constant initialisers
-   (top-level locals are not visible there); [param] = the method parameter is in scope *)
-Fixpoint ty_of (ms : list (N * ty)) (ks : list N) (locs : option (list (N * ty))) (param : bool)
+   (top-level locals are not visible there); [param] = the method parameter is in scope;
+   [cs] = the declared classes *)
+Fixpoint ty_of (cs : list N) (ms : list (N * ty)) (ks : list N) (locs : option (list (N * ty))) (param : bool)
          (e : expr) : option ty :=
   match e with
   | ELit _ => Some TInt
@@ -89,15 +126,16 @@ Fixpoint ty_of (ms : list (N * ty)) (ks : list N) (locs : option (list (N * ty))
   | EConst k => if memN k ks then Some TInt else None
   | EParam => if param then Some TInt else None
   | ECall m a =>
-      match ty_of ms ks locs param a with
+      match ty_of cs ms ks locs param a with
       | Some TInt => lookup ms m
       | _ => None
       end
   | EAdd a b | EMul a b | EDiv a b =>
-      match ty_of ms ks locs param a, ty_of ms ks locs param b with
+      match ty_of cs ms ks locs param a, ty_of cs ms ks locs param b with
       | Some TInt, Some TInt => Some TInt
       | _, _ => None
       end
+  | ENew c => if memN c cs then Some (TObj c) else None
   end.
 
 (* the compiler chain (Checker.compiler): nothing yet | the main compiler of an input, with its
@@ -114,15 +152,21 @@ Record cstate := mkC {
   c_locals : list (N * ty);          (* localEnvs: declared types of locals  — snapshotted/restored *)
   c_comp   : comp;                   (* compiler chain                       — restored only if fx  *)
   c_bodies : list (N * ty * expr);   (* methodBodyChecks                     — reset per input      *)
-  c_err    : bool                    (* Errors.IsFailure()                   — cleared by the REPL  *)
+  c_err    : bool;                   (* Errors.IsFailure()                   — cleared by the REPL  *)
+  c_tdefs  : list (N * texp);        (* runtimeEnv: named types, as written  — snapshotted/restored *)
+  c_classes : list N                 (* runtimeEnv: classes                  — snapshotted/restored *)
 }.
 
 Definition fail (s : cstate) : cstate :=
-  mkC (c_meths s) (c_consts s) (c_locals s) (c_comp s) (c_bodies s) true.
+  mkC (c_meths s) (c_consts s) (c_locals s) (c_comp s) (c_bodies s) true (c_tdefs s) (c_classes s).
+
+Definition or_err (s : cstate) (bad : bool) : cstate :=
+  mkC (c_meths s) (c_consts s) (c_locals s) (c_comp s) (c_bodies s) (c_err s || bad) (c_tdefs s) (c_classes s).
 
 Definition is_early (st : stmt) : bool := match st with SEarly => true | _ => false end.
 
-(* hoistNamespaceDefinitionsAndMacros / checkTypeDefinitions: constants are registered here,
+(* hoistNamespaceDefinitionsAndMacros: constants, classes and named types are registered here
+   (a class may be reopened; a constant or a named type cannot be redeclared),
    `class Z < Nope` fails here *)
 Fixpoint phase_namespaces (s : cstate) (inp : input) : cstate :=
   match inp with
@@ -130,9 +174,34 @@ Fixpoint phase_namespaces (s : cstate) (inp : input) : cstate :=
   | SEarly :: r => phase_namespaces (fail s) r
   | SConst k _ :: r =>
       let s1 := if memN k (c_consts s) then fail s (* cannot redeclare constant *)
-                else mkC (c_meths s) (k :: c_consts s) (c_locals s) (c_comp s) (c_bodies s) (c_err s) in
+                else mkC (c_meths s) (k :: c_consts s) (c_locals s) (c_comp s) (c_bodies s) (c_err s)
+                         (c_tdefs s) (c_classes s) in
+      phase_namespaces s1 r
+  | SClass c :: r =>
+      let s1 := if memN c (c_classes s) then s
+                else mkC (c_meths s) (c_consts s) (c_locals s) (c_comp s) (c_bodies s) (c_err s)
+                         (c_tdefs s) (c_classes s ++ [c]) in
+      phase_namespaces s1 r
+  | STypedef a x :: r =>
+      let s1 := match lookup (c_tdefs s) a with
+                | Some _ => fail s (* cannot redeclare constant *)
+                | None => mkC (c_meths s) (c_consts s) (c_locals s) (c_comp s) (c_bodies s) (c_err s)
+                              (c_tdefs s ++ [(a, x)]) (c_classes s)
+                end in
       phase_namespaces s1 r
   | _ :: r => phase_namespaces s r
+  end.
+
+(* checkTypeDefinitions (runs between initGlobalEnvCompiler and switchToMainCompiler, so a failure
+   here leaves the namespace-definition compiler in place, like SEarly): every named type of the input must denote a type in the environment that
+   now holds ALL classes and named types of the input (undefined type / circular reference) *)
+Fixpoint phase_types (s : cstate) (inp : input) : cstate :=
+  match inp with
+  | [] => s
+  | STypedef a _ :: r =>
+      let ok := match resolve_in (c_tdefs s) (c_classes s) (XAlias a) with Some _ => true | None => false end in
+      phase_types (or_err s (negb ok)) r
+  | _ :: r => phase_types s r
   end.
 
 (* initGlobalEnvCompiler: a new main compiler takes over the parent's local table; the current
@@ -140,7 +209,7 @@ Fixpoint phase_namespaces (s : cstate) (inp : input) : cstate :=
 Definition phase_compilers (s : cstate) : cstate :=
   let parent := comp_slots (c_comp s) in
   let c := if c_err s then CEnv parent else CMain parent in
-  mkC (c_meths s) (c_consts s) (c_locals s) c (c_bodies s) (c_err s).
+  mkC (c_meths s) (c_consts s) (c_locals s) c (c_bodies s) (c_err s) (c_tdefs s) (c_classes s).
 
 (* hoistMethodDefinitions + checkAllSignatures: the new signature replaces the old one; an
    incompatible return type is an invalid override *)
@@ -150,7 +219,7 @@ Fixpoint phase_hoist (s : cstate) (inp : input) : cstate :=
   | SDef m rt body :: r =>
       let bad := match lookup (c_meths s) m with Some rt' => negb (ty_eqb rt rt') | None => false end in
       let s1 := mkC (aset (c_meths s) m rt) (c_consts s) (c_locals s) (c_comp s)
-                    (c_bodies s ++ [(m, rt, body)]) (c_err s || bad) in
+                    (c_bodies s ++ [(m, rt, body)]) (c_err s || bad) (c_tdefs s) (c_classes s) in
       phase_hoist s1 r
   | _ :: r => phase_hoist s r
   end.
@@ -163,42 +232,49 @@ Fixpoint phase_consts (s : cstate) (inp : input) : cstate :=
   match inp with
   | [] => s
   | SConst _ e :: r =>
-      let s1 := if ty_is (ty_of (c_meths s) (c_consts s) None false e) TInt then s else fail s in
+      let s1 := if ty_is (ty_of (c_classes s) (c_meths s) (c_consts s) None false e) TInt then s else fail s in
       phase_consts s1 r
   | _ :: r => phase_consts s r
   end.
 
 (* checkMethodBodies *)
-Fixpoint bodies_ok (ms : list (N * ty)) (ks : list N) (bs : list (N * ty * expr)) : bool :=
+Fixpoint bodies_ok (cs : list N) (ms : list (N * ty)) (ks : list N) (bs : list (N * ty * expr)) : bool :=
   match bs with
   | [] => true
-  | (_, rt, body) :: r => ty_is (ty_of ms ks None true body) rt && bodies_ok ms ks r
+  | (_, rt, body) :: r => ty_is (ty_of cs ms ks None true body) rt && bodies_ok cs ms ks r
   end.
 
 Definition phase_bodies (s : cstate) : cstate :=
-  if bodies_ok (c_meths s) (c_consts s) (c_bodies s) then s else fail s.
+  if bodies_ok (c_classes s) (c_meths s) (c_consts s) (c_bodies s) then s else fail s.
 
 (* checkExpressionsInFile: top-level statements in order; a declared local stays declared even
-   when its initialiser is ill-typed *)
+   when its initialiser is ill-typed (not when its declared type is undefined) *)
 Fixpoint phase_exprs (s : cstate) (inp : input) : cstate :=
   match inp with
   | [] => s
-  | SDecl v t e :: r =>
-      let ok := match lookup (c_locals s) v with
-                | Some _ => false (* cannot redeclare local *)
-                | None => ty_is (ty_of (c_meths s) (c_consts s) (Some (c_locals s)) false e) t
+  | SDecl v x e :: r =>
+      let tyo := ty_of (c_classes s) (c_meths s) (c_consts s) (Some (c_locals s)) false e in
+      let dt := resolve_in (c_tdefs s) (c_classes s) x in
+      let ok := match lookup (c_locals s) v, dt with
+                | Some _, _ => false (* cannot redeclare local *)
+                | None, Some t => ty_is tyo t
+                | None, None => false (* undefined type *)
                 end in
-      let ls := match lookup (c_locals s) v with Some _ => c_locals s | None => c_locals s ++ [(v, t)] end in
-      phase_exprs (mkC (c_meths s) (c_consts s) ls (c_comp s) (c_bodies s) (c_err s || negb ok)) r
+      let ls := match lookup (c_locals s) v, dt with
+                | None, Some t => c_locals s ++ [(v, t)]
+                | _, _ => c_locals s
+                end in
+      phase_exprs (mkC (c_meths s) (c_consts s) ls (c_comp s) (c_bodies s) (c_err s || negb ok)
+                       (c_tdefs s) (c_classes s)) r
   | SAssign v e :: r =>
       let ok := match lookup (c_locals s) v with
-                | Some t => ty_is (ty_of (c_meths s) (c_consts s) (Some (c_locals s)) false e) t
+                | Some t => ty_is (ty_of (c_classes s) (c_meths s) (c_consts s) (Some (c_locals s)) false e) t
                 | None => false
                 end in
-      phase_exprs (mkC (c_meths s) (c_consts s) (c_locals s) (c_comp s) (c_bodies s) (c_err s || negb ok)) r
+      phase_exprs (or_err s (negb ok)) r
   | SPrint e :: r =>
-      let ok := match ty_of (c_meths s) (c_consts s) (Some (c_locals s)) false e with Some _ => true | None => false end in
-      phase_exprs (mkC (c_meths s) (c_consts s) (c_locals s) (c_comp s) (c_bodies s) (c_err s || negb ok)) r
+      let ok := match ty_of (c_classes s) (c_meths s) (c_consts s) (Some (c_locals s)) false e with Some _ => true | None => false end in
+      phase_exprs (or_err s (negb ok)) r
   | _ :: r => phase_exprs s r
   end.
 
@@ -217,11 +293,12 @@ Definition phase_compile (s : cstate) (inp : input) : cstate :=
   if c_err s then s
   else mkC (c_meths s) (c_consts s) (c_locals s)
            (CMain (fold_left add_slot (decl_names inp) (comp_slots (c_comp s))))
-           (c_bodies s) (c_err s).
+           (c_bodies s) (c_err s) (c_tdefs s) (c_classes s).
 
 Definition check_program (s : cstate) (inp : input) : cstate :=
   let s1 := phase_namespaces s inp in
-  let s2 := phase_compilers s1 in
+  let s1' := phase_types s1 inp in
+  let s2 := phase_compilers s1' in
   let s3 := phase_hoist s2 inp in
   let s4 := phase_consts s3 inp in
   let s5 := phase_bodies s4 in
@@ -230,14 +307,14 @@ Definition check_program (s : cstate) (inp : input) : cstate :=
 
 (* CheckSource: per-input reset, snapshot, CheckProgram, restore on failure *)
 Definition reset (s : cstate) : cstate :=
-  mkC (c_meths s) (c_consts s) (c_locals s) (c_comp s) [] false.
+  mkC (c_meths s) (c_consts s) (c_locals s) (c_comp s) [] false (c_tdefs s) (c_classes s).
 
 Definition check_source (fx : bool) (s : cstate) (inp : input) : cstate :=
   let s1 := check_program (reset s) inp in
   if c_err s1 then
     mkC (c_meths s) (c_consts s) (c_locals s)
         (if fx then c_comp s else c_comp s1)
-        (c_bodies s1) true
+        (c_bodies s1) true (c_tdefs s) (c_classes s)
   else s1.
 
 (* ---------------------------------------------------------------- evaluation *)
@@ -279,6 +356,7 @@ Fixpoint eval (fuel : nat) (ms : list (N * expr)) (ks : list (N * val)) (loc : N
       | EAdd a b => arith (fun x y => RVal (VInt (x + y))) a b
       | EMul a b => arith (fun x y => RVal (VInt (x * y))) a b
       | EDiv a b => arith (fun x y => if Z.eqb y 0 then RErr else RVal (VInt (Z.quot x y))) a b
+      | ENew c => RVal (VObj c)
       end
   end.
 
@@ -372,7 +450,7 @@ Definition vm_input (slots : list N) (r : rstate) (inp : input) : rstate * resul
 Record istate := mkI { i_c : cstate; i_r : rstate }.
 
 Definition clear_errors (s : cstate) : cstate :=
-  mkC (c_meths s) (c_consts s) (c_locals s) (c_comp s) (c_bodies s) false.
+  mkC (c_meths s) (c_consts s) (c_locals s) (c_comp s) (c_bodies s) false (c_tdefs s) (c_classes s).
 
 (* repl.evaluate *)
 Definition incr_step (fx : bool) (st : istate) (inp : input) : istate * result :=
@@ -392,7 +470,7 @@ Fixpoint incr (fx : bool) (st : istate) (h : list input) : list result * istate 
       end
   end.
 
-Definition c_init : cstate := mkC [] [] [] CNone [] false.
+Definition c_init : cstate := mkC [] [] [] CNone [] false [] [].
 Definition r_init : rstate := mkR [] [] [].
 Definition i_init : istate := mkI c_init r_init.
 
@@ -412,6 +490,7 @@ Definition ran_results (rs : list result) : list result := filter is_ran rs.
 (* what a later input can see *)
 Definition visible (st : istate) :=
   (c_meths (i_c st), c_consts (i_c st), c_locals (i_c st), c_comp (i_c st),
+   c_tdefs (i_c st), c_classes (i_c st),
    r_meths (i_r st), r_consts (i_r st), r_stack (i_r st)).
 
 (* ---------------------------------------------------------------- the reference (batch) *)
